@@ -362,6 +362,32 @@ func vpH_C20_property() {
 	vpReach("end")
 }
 
+// a typed-nil collection property of an otherwise valid actor / object
+func vpH_C20_collection_property() {
+	k := 1 + vpChoice(vpNilKindCount()-1)
+	x := vpNilOfKind(k)
+	a := &Actor{ID: "https://h.ex/actor", Type: PersonType, Inbox: x, Outbox: x, Liked: x, Following: x, Followers: x}
+	o := &Object{ID: "https://h.ex/ob", Type: NoteType, Likes: x, Shares: x, Replies: x}
+	names := []CollectionPath{Inbox, Outbox, Liked, Following, Followers, Likes, Shares, Replies}
+	c := names[vpChoice(len(names))]
+	var it Item = a
+	if c == Likes || c == Shares || c == Replies {
+		it = o
+	}
+	cell := string(c) + "/" + vpNilKindName(k)
+	var iri IRI
+	p := vpMayPanic(func() { iri = c.IRI(it) })
+	vpAssert("collprop/IRI-no-panic/"+cell, !p)
+	if !p {
+		vpAssert("collprop/IRI-falls-back-to-built/"+cell, iri == IRIf(it.GetLink(), c))
+	}
+	p = vpMayPanic(func() { _ = c.Of(it) })
+	vpAssert("collprop/Of-no-panic/"+cell, !p)
+	p = vpMayPanic(func() { _, _ = c.AddTo(it) })
+	vpAssert("collprop/AddTo-no-panic/"+cell, !p)
+	vpReach("end")
+}
+
 func vpW_C20_twin() {
 	_ = IsNil(nil)
 	vpAssert("twin", false)
